@@ -1,5 +1,5 @@
 From Coq Require Import Extraction ExtrOcamlBasic.
-From Elvis Require Import Model.Base Model.AppBytes Model.Dns Model.DnsProto Proofs.DnsProtoFacts.
+From Elvis Require Import Model.Base Model.AppBytes Model.Dns Model.DnsProto.
 Extraction Language OCaml.
 Extraction "../ocaml/gen/dnsproto_model.ml" validate step init_state query_of_bytes names_okb records_ok
   server_respond request_bytes server_table tbl_get all_returned starved finals_ok getc.
